@@ -132,3 +132,104 @@ Qed.
 
 Theorem parse_headers_leading_lf h : parse_headers (hLF :: h) = parse_headers h.
 Proof. unfold parse_headers. rewrite header_lines_leading_lf. reflexivity. Qed.
+
+(* ------------------------------------------------------------------ a well-formed header block:
+   clean lines (no CR, no LF, not empty, no ASCII white space at either end) joined by CRLF parse
+   back to exactly those lines *)
+Definition clean_line (l : bytes) : bool :=
+  nonempty l && forallb (fun c => negb (c =? hCR) && negb (c =? hLF)) l
+  && list_eqb (strip ascii_ws l) l.
+
+Definition crlf_tail (r : list bytes) : bytes := flat_map (fun x => hCR :: hLF :: x) r.
+Definition join_crlf (ls : list bytes) : bytes :=
+  match ls with
+  | [] => []
+  | l :: r => l ++ crlf_tail r
+  end.
+
+Lemma list_eqb_true a b : list_eqb a b = true -> a = b.
+Proof.
+  revert b. induction a as [|x a IH]; destruct b as [|y b]; cbn [list_eqb]; intro H;
+    try discriminate; [reflexivity|].
+  apply andb_prop in H. destruct H as [Hx Hab]. apply N.eqb_eq in Hx. subst y.
+  f_equal. apply IH. exact Hab.
+Qed.
+
+Lemma clean_line_facts l : clean_line l = true ->
+  l <> [] /\ forallb (fun c => negb (c =? hCR) && negb (c =? hLF)) l = true /\ strip ascii_ws l = l.
+Proof.
+  unfold clean_line. intro H. apply andb_prop in H. destruct H as [H H3]. apply andb_prop in H. destruct H as [H1 H2].
+  repeat split; [destruct l; [discriminate|discriminate]|exact H2|apply list_eqb_true; exact H3].
+Qed.
+
+(* a line without CR/LF passes through cont_sub, whatever follows it *)
+Lemma cont_sub_plain_run l X :
+  forallb (fun c => negb (c =? hCR) && negb (c =? hLF)) l = true -> cont_sub (l ++ X) = l ++ cont_sub X.
+Proof.
+  induction l as [|c l IH]; cbn [app forallb]; intro H; [reflexivity|].
+  apply andb_prop in H. destruct H as [Hc Hl]. apply andb_prop in Hc. destruct Hc as [H1 H2].
+  rewrite cont_sub_plain by (destruct (c =? hLF), (c =? hCR); try discriminate; reflexivity).
+  rewrite IH by exact Hl. reflexivity.
+Qed.
+
+Lemma splitlines_plain_run l X cur :
+  forallb (fun c => negb (c =? hCR) && negb (c =? hLF)) l = true ->
+  splitlines (l ++ X) cur = splitlines X (cur ++ l).
+Proof.
+  revert cur. induction l as [|c l IH]; intros cur H; cbn [app forallb] in *.
+  - rewrite app_nil_r. reflexivity.
+  - apply andb_prop in H. destruct H as [Hc Hl]. apply andb_prop in Hc. destruct Hc as [H1 H2].
+    cbn [splitlines]. destruct (c =? hLF); [discriminate|]. destruct (c =? hCR); [discriminate|].
+    rewrite IH by exact Hl. rewrite <- app_assoc. reflexivity.
+Qed.
+
+(* the first character of a stripped non-empty line is not a blank *)
+Lemma clean_line_head l : clean_line l = true ->
+  match l with c :: _ => hblank c = false | [] => False end.
+Proof.
+  intro H. destruct (clean_line_facts l H) as [Hne [_ Hs]]. destruct l as [|c r]; [congruence|].
+  unfold strip in Hs. cbn [drop_while] in Hs. destruct (ascii_ws c) eqn:E.
+  - (* the strip would have removed c: the result is shorter than c :: r *)
+    exfalso. assert (Hlen : (length (rstrip ascii_ws (drop_while ascii_ws r)) <= length r)%nat).
+    { clear. assert (G : forall s, (length (rstrip ascii_ws s) <= length s)%nat).
+      { induction s as [|x s IHs]; cbn [rstrip length]; [lia|].
+        destruct (rstrip ascii_ws s); [destruct (ascii_ws x); cbn [length]; lia|cbn [length] in *; lia]. }
+      assert (G2 : forall s, (length (drop_while ascii_ws s) <= length s)%nat).
+      { induction s as [|x s IHs]; cbn [drop_while length]; [lia|]. destruct (ascii_ws x); cbn [length]; lia. }
+      specialize (G (drop_while ascii_ws r)). specialize (G2 r). lia. }
+    rewrite Hs in Hlen. cbn [length] in Hlen. lia.
+  - unfold hblank, ascii_ws in *. lia.
+Qed.
+
+Lemma cont_sub_crlf_nonblank c Z :
+  hblank c = false -> cont_sub (hCR :: hLF :: c :: Z) = hCR :: hLF :: cont_sub (c :: Z).
+Proof. intro Hh. cbn [cont_sub]. rewrite N.eqb_refl. rewrite N.eqb_refl. rewrite Hh. reflexivity. Qed.
+
+Lemma lines_tail r : forallb clean_line r = true -> forall l, clean_line l = true ->
+  filter nonempty (map (strip ascii_ws) (splitlines (cont_sub (l ++ crlf_tail r)) [])) = l :: r.
+Proof.
+  induction r as [|l2 r2 IH]; intros Hr l Hl;
+    destruct (clean_line_facts l Hl) as [Hne [Hplain Hstrip]].
+  - unfold crlf_tail. cbn [flat_map]. rewrite cont_sub_plain_run by exact Hplain.
+    cbn [cont_sub]. rewrite splitlines_plain_run by exact Hplain. cbn [app splitlines].
+    destruct l as [|c l']; [congruence|]. cbn [map filter]. rewrite Hstrip. reflexivity.
+  - cbn [forallb] in Hr. apply andb_prop in Hr. destruct Hr as [Hl2 Hr2].
+    pose proof (clean_line_head l2 Hl2) as Hh.
+    destruct l2 as [|c2 l2']; [destruct Hh|].
+    unfold crlf_tail. cbn [flat_map]. fold (crlf_tail r2). cbn [app].
+    rewrite cont_sub_plain_run by exact Hplain.
+    rewrite cont_sub_crlf_nonblank by exact Hh.
+    rewrite splitlines_plain_run by exact Hplain. cbn [app splitlines].
+    replace (hCR =? hLF) with false by reflexivity. rewrite N.eqb_refl. rewrite N.eqb_refl.
+    cbn [map filter]. rewrite Hstrip. destruct l as [|c l']; [congruence|]. cbn [nonempty].
+    f_equal. change (c2 :: l2' ++ crlf_tail r2) with ((c2 :: l2') ++ crlf_tail r2).
+    apply IH; assumption.
+Qed.
+
+Theorem header_lines_of_clean ls :
+  forallb clean_line ls = true -> header_lines_of (join_crlf ls) = ls.
+Proof.
+  unfold header_lines_of. destruct ls as [|l r]; [reflexivity|].
+  cbn [forallb join_crlf]. intro H. apply andb_prop in H. destruct H as [Hl Hr].
+  apply lines_tail; assumption.
+Qed.
